@@ -7,7 +7,8 @@ use crate::util::{self, workers, Part};
 use micro_http::{Encoding, Headers, MediaType, Method, Request, Version};
 use serde_json::json;
 
-const SYMS: [u8; 8] = [b'G', b':', b' ', b'\r', b'\n', b'0', 0xff, 0x00];
+const SYMS: [u8; 11] = [b'G', b':', b' ', b'\r', b'\n', b'0', 0xff, 0x00, b'/', 0xc3, 0xa9];
+const K: u64 = 11;
 
 fn entry_points(input: &[u8], t: &mut crate::par::Tally, ctx: &str) {
     let n = input.len();
@@ -73,10 +74,10 @@ pub fn run(thorough: bool) -> Vec<Part> {
         return vec![part];
     }
     let mut part = Part::new("C03", "entry-points-r", "exploration");
-    part.assume("every byte string of length <= N over {G : SP CR LF 0 0xFF 0x00} (N = 7 quick, 8 thorough), alone and appended to the contexts `GET / HTTP/1.1\\r\\n`, `GET / HTTP/1.1\\r\\nContent-Length: 1`, `GET http://` (+ ` HTTP/1.1\\r\\n\\r\\n`), through Request::try_from (max_len None / len-1 / len / len+1, plus accessors and get_abs_path), Headers::try_from, Headers::parse_header_line, MediaType/Encoding/Method/Version::try_from; every call under catch_unwind in a build with overflow checks and debug assertions; a 120 s watchdog per block detects hangs; aborts are attributed to the input");
-    let n = if thorough { 8 } else { 7 };
+    part.assume("every byte string of length <= N over {G : SP CR LF 0 0xFF 0x00 / 0xC3 0xA9} (the last two form a valid two-byte UTF-8 character when adjacent; N = 6 quick, 7 thorough), alone and appended to the contexts `GET / HTTP/1.1\\r\\n`, `GET / HTTP/1.1\\r\\nContent-Length: 1`, `GET http://` (+ ` HTTP/1.1\\r\\n\\r\\n`), through Request::try_from (max_len None / len-1 / len / len+1, plus accessors and get_abs_path), Headers::try_from, Headers::parse_header_line, MediaType/Encoding/Method/Version::try_from; every call under catch_unwind in a build with overflow checks and debug assertions; a 120 s watchdog per block detects hangs; aborts are attributed to the input");
+    let n = if thorough { 7 } else { 6 };
     // blocks: the first 3 symbols; inner loop: the remaining <= n-3 symbols (all shorter lengths too)
-    let blocks = 8u64.pow(3);
+    let blocks = K.pow(3);
     let contexts: Vec<(&str, Vec<u8>, Vec<u8>)> = vec![
         ("bare", vec![], vec![]),
         ("after request line", b"GET / HTTP/1.1\r\n".to_vec(), vec![]),
@@ -88,7 +89,7 @@ pub fn run(thorough: bool) -> Vec<Part> {
         workers(),
         300,
         |blk, t| {
-            let head = [SYMS[(blk % 8) as usize], SYMS[(blk / 8 % 8) as usize], SYMS[(blk / 64 % 8) as usize]];
+            let head = [SYMS[(blk % K) as usize], SYMS[(blk / K % K) as usize], SYMS[(blk / K / K % K) as usize]];
             // strings shorter than 3 symbols are covered once, by block 0
             let mut inputs: Vec<Vec<u8>> = vec![];
             if blk == 0 {
@@ -102,13 +103,13 @@ pub fn run(thorough: bool) -> Vec<Part> {
             }
             let rest = n - 3;
             for len in 0..=rest {
-                let count = 8u64.pow(len as u32);
+                let count = K.pow(len as u32);
                 for i in 0..count {
                     let mut s = head.to_vec();
                     let mut x = i;
                     for _ in 0..len {
-                        s.push(SYMS[(x % 8) as usize]);
-                        x /= 8;
+                        s.push(SYMS[(x % K) as usize]);
+                        x /= K;
                     }
                     inputs.push(s);
                 }
@@ -130,7 +131,7 @@ pub fn run(thorough: bool) -> Vec<Part> {
                 }
             }
         },
-        |blk| format!("all strings starting with symbols #{} #{} #{}", blk % 8, blk / 8 % 8, blk / 64 % 8),
+        |blk| format!("all strings starting with symbols #{} #{} #{}", blk % K, blk / K % K, blk / K / K % K),
     );
     t.record(&mut part, "entry-point-strings");
     // large inputs through the connection (real buffer)
@@ -194,7 +195,21 @@ pub fn run(thorough: bool) -> Vec<Part> {
         |i| format!("large input #{}", i),
     );
     t2.record(&mut part, "large-inputs");
-    part.set("rule", json!("all strings up to the length bound over the 8-symbol adversarial alphabet x 4 contexts x 10 entry points; distinct by construction; non-trivial = the string contains CR, LF or ':'"));
+    // write side: at most one write per try_write, whatever the stream answers (incl. EINTR)
+    {
+        let cfg = crate::connw::WCfg { label: "write path: one write per try_write under every stream answer".into(), bodies: vec![5], max_enqueues: 2, all_lengths: false };
+        let st = bfs(&cfg, &Limits::default(), workers());
+        part.add("write_path_states", st.states);
+        part.add("write_path_transitions", st.transitions);
+        part.add("evaluations", st.transitions);
+        for (v, _) in &st.violations {
+            part.violations.push(v.clone());
+        }
+        for e in &st.machinery_errors {
+            part.machinery_errors.push(e.clone());
+        }
+    }
+    part.set("rule", json!("all strings up to the length bound over the 11-symbol adversarial alphabet x 4 contexts x 10 entry points; distinct by construction; non-trivial = the string contains CR, LF or ':'"));
     part.set("exhaustive", json!(true));
     vec![part]
 }
